@@ -30,6 +30,8 @@ type pendingFuture struct {
 	op   raft.Future[raft.OperationResponse]
 	conf raft.Future[raft.Configuration]
 	done bool
+	// the node was seen frozen while this future was unresolved
+	frozenSeen bool
 }
 
 type run struct {
@@ -139,6 +141,12 @@ func (x *run) observe() {
 		}
 		n := x.c.Nodes[f.node]
 		if n.Store != nil && n.Store.Frozen && n.Incarnation == f.inc {
+			f.frozenSeen = true
+			continue
+		}
+		if n.Incarnation != f.inc && f.frozenSeen {
+			// the process froze (and died) in the section that may have answered this future: nobody ever saw it
+			f.done = true
 			continue
 		}
 		if f.op != nil {
